@@ -84,7 +84,7 @@ func Verif_C13_admission() {
 		first.remote = p0.remote
 		p0.p.incomingConnection(first)
 		verifQuiesce()
-		first.send(keepAliveMessageType, nil)
+		first.send(verifMsgKeepalive, nil)
 		verifQuiesce()
 		verifAssert("protocol-error-ended-first-connection", first.closed && len(first.writes) == 2)
 	case c13InboundInProgress:
@@ -102,8 +102,8 @@ func Verif_C13_admission() {
 		verifDelayBound(d)             // schedules of accept path / manager / new FSM with up to d delays
 		p0.p.incomingConnection(first) // no quiescence: the next connection races the new FSM's first transition
 	case c13OutEstablished:
-		outConn.send(openMessageType, mkOpenBody(65001, 90, 0x0a000002))
-		outConn.send(keepAliveMessageType, nil)
+		outConn.send(verifMsgOpen, mkOpenBody(65001, 90, 0x0a000002))
+		outConn.send(verifMsgKeepalive, nil)
 		verifQuiesce()
 		verifAssert("out-established", pl.nEstab == 1)
 	}
